@@ -545,6 +545,8 @@ def check_fault_traces(ck, pid):
     from concurrent.futures import ThreadPoolExecutor
     runs = [(n, r) for n, r in getattr(ck, 'fault_runs', []) if n not in scen.DAMAGED_PRE]
 
+    tails = []
+
     def one(item):
         name, r = item
         run = r['trace_run']
@@ -572,6 +574,18 @@ def check_fault_traces(ck, pid):
                 bad.append(f'unknown events {unknown[:2]}')
             if m.group(1) != 'ok':
                 bad.append(f'monitor {m.group(1)}')
+            # the hypothesis of the C17 program theorems (FaultProofs.handler_ev): what the implementation does after the failed call is
+            # handler work only - closing/flushing handles, removing the sandbox file, rolling the session back
+            fi = next((i for i, e in enumerate(run['log']) if len(e) > 1 and e[1] == 'fault'), None)
+            if fi is not None:
+                pre_ev = build_block(dict(run, log=run['log'][:fi]))[2]
+                tail = ev[len(pre_ev):]
+                if ev[:len(pre_ev)] != pre_ev:
+                    bad.append('translation of the trace is not prefix-stable')
+                nonh = [e for e in tail if e.split(' ')[0] not in ('close', 'flush', 'unlinksand', 'rollback')]
+                if nonh:
+                    bad.append(f'after the fault the implementation performed non-handler events {nonh[:3]}')
+                tails.append(len(tail))
             return (name, r['n'], '; '.join(bad) if bad else None)
         except Exception as e:
             return (name, r['n'], f'{type(e).__name__}: {e}')
@@ -579,8 +593,10 @@ def check_fault_traces(ck, pid):
         res = list(ex.map(one, runs))
     bad = [f'{n}@{k}: {b}' for n, k, b in res if b]
     ck.cov['fault_traces_monitored'] = len(res)
-    ck.obligation(f'discipline+semantics on fault runs: the verified monitor accepts every boundary of each of the {len(res)} traces with an injected fault and the model '
-                  f'ends in the folder the failed operation left behind', not bad, '; '.join(bad)[:1200], kind='correspondence')
+    ck.cov['fault_handler_events'] = sum(tails)
+    ck.obligation(f'discipline+semantics on fault runs: the verified monitor accepts every boundary of each of the {len(res)} traces with an injected fault, the model '
+                  f'ends in the folder the failed operation left behind, and what follows the failed call are handler events only (FaultProofs.handler_ev: '
+                  f'close/flush/sandbox removal/rollback; {sum(tails)} such events seen)', not bad, '; '.join(bad)[:1200], kind='correspondence')
     for n, k, b in res:
         if b:
             getattr(ck, 'rejected_scenarios', set()).add(n)
